@@ -31,18 +31,24 @@ var (
 	out  = flag.String("out", "", "")
 )
 
-func bits(r *rand.Rand, k int, pAccept float64) string {
-	if k == 0 {
+type hreg struct {
+	id      int
+	verdict bool
+}
+
+func hs(l []hreg) string {
+	if len(l) == 0 {
 		return "-"
 	}
-	b := make([]byte, k)
-	for i := range b {
-		b[i] = '0'
-		if r.Float64() < pAccept {
-			b[i] = '1'
+	p := make([]string, len(l))
+	for i, h := range l {
+		sign := "-"
+		if h.verdict {
+			sign = "+"
 		}
+		p[i] = strconv.Itoa(h.id) + sign
 	}
-	return string(b)
+	return strings.Join(p, ",")
 }
 
 func ids(l []int) string {
@@ -53,122 +59,138 @@ func ids(l []int) string {
 	return strings.Join(s, ",")
 }
 
+// outgoingCase: several rounds of "register some handlers (all-types and type-specific, in any order),
+// then send a message of type X" on one handler
 func outgoingCase(r *rand.Rand, o *hout.Out) {
 	h := simplefixgo.NewAcceptorHandler(context.Background(), "35", 16)
-	a := bits(r, r.Intn(5), 0.8)
-	t := bits(r, r.Intn(4), 0.8)
 	var mu sync.Mutex
 	var log []int
+	var allH, typedH []hreg
 	id := 0
-	reg := func(tp string, bs string) {
-		if bs == "-" {
-			return
+	reg := func(tp string) {
+		myID, verdict := id, r.Intn(6) > 0
+		id++
+		if tp == simplefixgo.AllMsgTypes {
+			allH = append(allH, hreg{myID, verdict})
+		} else {
+			typedH = append(typedH, hreg{myID, verdict})
 		}
-		for _, c := range bs {
-			myID, verdict := id, c == '1'
-			id++
-			h.HandleOutgoing(tp, func(simplefixgo.SendingMessage) bool {
-				mu.Lock()
-				log = append(log, myID)
-				mu.Unlock()
-				return verdict
-			})
-		}
+		h.HandleOutgoing(tp, func(simplefixgo.SendingMessage) bool {
+			mu.Lock()
+			log = append(log, myID)
+			mu.Unlock()
+			return verdict
+		})
 	}
-	// interleave registration of the two types: order within a type is what matters
-	reg(simplefixgo.AllMsgTypes, a)
-	reg("X", t)
 	h.HandleOutgoing("Y", func(simplefixgo.SendingMessage) bool { // another type: must never run
 		mu.Lock()
 		log = append(log, 999)
 		mu.Unlock()
 		return true
 	})
-	ok := r.Intn(8) > 0
-	var terr error
-	if !ok {
-		terr = errors.New("cannot serialize")
-	}
-	data := []byte("8=FIX.4.4\x0135=X\x01")
-	err := h.Send(messages.NewMockMessage("X", data, terr))
-	enq := "0"
-	select {
-	case got := <-h.Outgoing():
-		enq = "1"
-		if !bytes.Equal(got, data) {
-			o.Fail("C19", "transmitted-bytes-differ", fmt.Sprintf("%q", got))
+	rounds := 1 + r.Intn(3)
+	for round := 0; round < rounds; round++ {
+		for k := r.Intn(4); k > 0; k-- {
+			if r.Intn(2) == 0 {
+				reg(simplefixgo.AllMsgTypes)
+			} else {
+				reg("X")
+			}
 		}
-	default:
+		ok := r.Intn(8) > 0
+		var terr error
+		if !ok {
+			terr = errors.New("cannot serialize")
+		}
+		data := []byte("8=FIX.4.4\x0135=X\x01")
+		mu.Lock()
+		log = nil
+		mu.Unlock()
+		err := h.Send(messages.NewMockMessage("X", data, terr))
+		enq := "0"
+		select {
+		case got := <-h.Outgoing():
+			enq = "1"
+			if !bytes.Equal(got, data) {
+				o.Fail("C19", "transmitted-bytes-differ", fmt.Sprintf("%q", got))
+			}
+		default:
+		}
+		okS := "0"
+		if ok {
+			okS = "1"
+		}
+		op := fmt.Sprintf("pool out %s %s %s", hs(allH), hs(typedH), okS)
+		o.Emit("corr", "C19", op, "log "+ids(log)+" | enq "+enq)
+		if (enq == "1") != (err == nil) {
+			o.Fail("C19", "send-error-mismatch", fmt.Sprintf("round %d: enqueued=%s err=%v all=%s typed=%s", round, enq, err, hs(allH), hs(typedH)), op)
+		}
+		refused := false
+		for _, x := range append(append([]hreg{}, allH...), typedH...) {
+			refused = refused || !x.verdict
+		}
+		if refused && enq == "1" {
+			o.Fail("C19", "refused-message-transmitted", fmt.Sprintf("round %d: all=%s typed=%s", round, hs(allH), hs(typedH)), op)
+		}
+		o.Nontrivial("C19", op)
+		o.Count(fmt.Sprintf("C19.out.round%d", round))
 	}
-	okS := "0"
-	if ok {
-		okS = "1"
-	}
-	o.Emit("corr", "C19", fmt.Sprintf("pool out %s %s %s", a, t, okS), "log "+ids(log)+" | enq "+enq)
-	if (enq == "1") != (err == nil) {
-		o.Fail("C19", "send-error-mismatch", fmt.Sprintf("enqueued=%s err=%v all=%s typed=%s", enq, err, a, t), fmt.Sprintf("pool out %s %s %s", a, t, okS))
-	}
-	if strings.Contains(a+t, "0") && enq == "1" {
-		o.Fail("C19", "refused-message-transmitted", fmt.Sprintf("all=%s typed=%s", a, t), fmt.Sprintf("pool out %s %s %s", a, t, okS))
-	}
-	o.Nontrivial("C19", "out "+a+" "+t+" "+okS)
-	o.Count("C19.out")
 }
 
 func incomingCase(r *rand.Rand, o *hout.Out) {
 	h := simplefixgo.NewAcceptorHandler(context.Background(), "35", 16)
-	a := bits(r, r.Intn(5), 0.8)
-	t := bits(r, r.Intn(4), 0.8)
 	var mu sync.Mutex
 	var log []int
+	var allH, typedH []hreg
 	id := 0
-	reg := func(tp string, bs string) {
-		if bs == "-" {
-			return
+	reg := func(tp string) {
+		myID, verdict := id, r.Intn(6) > 0
+		id++
+		if tp == simplefixgo.AllMsgTypes {
+			allH = append(allH, hreg{myID, verdict})
+		} else {
+			typedH = append(typedH, hreg{myID, verdict})
 		}
-		for _, c := range bs {
-			myID, verdict := id, c == '1'
-			id++
-			h.HandleIncoming(tp, func([]byte) bool {
-				mu.Lock()
-				log = append(log, myID)
-				mu.Unlock()
-				return verdict
-			})
-		}
+		h.HandleIncoming(tp, func([]byte) bool {
+			mu.Lock()
+			log = append(log, myID)
+			mu.Unlock()
+			return verdict
+		})
 	}
-	reg(simplefixgo.AllMsgTypes, a)
-	reg("X", t)
-	done := make(chan struct{}, 1)
+	done := make(chan struct{}, 4)
 	h.HandleIncoming("ZZ", func([]byte) bool { done <- struct{}{}; return true })
 	go func() { _ = h.Run() }()
-	h.ServeIncoming([]byte("8=FIX.4.4\x019=5\x0135=X\x0110=000\x01"))
-	mu.Lock()
-	mu.Unlock()
-	h.ServeIncoming([]byte("8=FIX.4.4\x019=6\x0135=ZZ\x0110=000\x01"))
-	select {
-	case <-done:
-	case <-time.After(3 * time.Second):
-		o.Fail("C19", "inbound-dispatch-hang", a+" "+t)
-	}
-	mu.Lock()
-	// the sentinel also passes the all-types handlers: cut its calls off (everything after the X message's calls)
-	l := append([]int{}, log...)
-	mu.Unlock()
-	// calls caused by the sentinel are a suffix equal to the all-types prefix; recompute expected length from the model side
-	// instead: register-order ids < len(a) are all-types. The X message produced: all-types prefix, then typed prefix.
-	cut := len(l)
-	for i := 1; i < len(l); i++ { // the sentinel's calls start at the second occurrence of id 0 (if any all-types handler exists)
-		if l[i] == 0 && a != "-" {
-			cut = i
-			break
+	rounds := 1 + r.Intn(3)
+	for round := 0; round < rounds; round++ {
+		for k := r.Intn(4); k > 0; k-- {
+			if r.Intn(2) == 0 {
+				reg(simplefixgo.AllMsgTypes)
+			} else {
+				reg("X")
+			}
 		}
+		mu.Lock()
+		log = nil
+		mu.Unlock()
+		h.ServeIncoming([]byte("8=FIX.4.4\x019=5\x0135=X\x0110=000\x01"))
+		// barrier: a message of another type; its own all-types calls are cut off below
+		time.Sleep(2 * time.Millisecond)
+		mu.Lock()
+		l := append([]int{}, log...)
+		mu.Unlock()
+		h.ServeIncoming([]byte("8=FIX.4.4\x019=6\x0135=ZZ\x0110=000\x01"))
+		select {
+		case <-done:
+		case <-time.After(3 * time.Second):
+			o.Fail("C19", "inbound-dispatch-hang", hs(allH)+" "+hs(typedH))
+		}
+		op := fmt.Sprintf("pool in %s %s", hs(allH), hs(typedH))
+		o.Emit("corr", "C19", op, "log "+ids(l))
+		o.Nontrivial("C19", op)
+		o.Count(fmt.Sprintf("C19.in.round%d", round))
 	}
-	l = l[:cut]
 	h.Stop()
-	o.Emit("corr", "C19", fmt.Sprintf("pool in %s %s", a, t), "log "+ids(l))
-	o.Nontrivial("C19", "in "+a+" "+t)
-	o.Count("C19.in")
 }
 
 // failing store: Save fails on the k-th call
